@@ -1024,3 +1024,46 @@ LOCK_METHODS = ("lock", "try_lock", "read", "write", "try_read", "try_write", "b
 def is_lock_call(c):
     """acquisition of a Mutex / RwLock guard (std, tokio or parking_lot)"""
     return c.method in LOCK_METHODS and ("Mutex" in (c.self_s or "") or "RwLock" in (c.self_s or ""))
+
+
+def relock_sites(prog):
+    """A std / parking_lot Mutex (and the write side of an RwLock) is not re-entrant: a thread that acquires it again while it still holds a
+    guard of the same lock blocks forever - and, holding the guard, blocks every other user of that lock with it. For every lock
+    acquisition: the blocks reachable from it while the guard is alive (until the drop / StorageDead of the local that holds the guard;
+    a guard that is a temporary of a `match` / `if let` scrutinee lives to the end of that statement), and in those blocks every call
+    that acquires a lock of the same type again, directly or inside a workspace callee (flat view). Returns [(body, lock term, inner
+    term, inner callee, how)]."""
+    out = []
+    for b in prog.prod_bodies():
+        for (blk, c, t) in b.calls():
+            if not is_lock_call(c) or "tokio::sync" in c.target or c.method.startswith("try_"):
+                continue
+            lock_ty = c.self_s
+            carriers, _, _ = b.slice_fwd([t["dest"][0]])
+            holders = {l for l in carriers if "Guard<" in b.local_ty(l) and "Result<" not in b.local_ty(l) and "&" not in b.local_ty(l)[:1]}
+            if not holders:
+                holders = {t["dest"][0]}
+            ends = set()
+            for x in b.rpo():
+                tt = b.term(x)
+                if tt and tt["k"] == "drop" and tt["p"][0] in holders and not tt["p"][1]:
+                    ends.add(x)
+                for s in b.stmts(x):
+                    if s["k"] == "dead" and s["l"] in holders:
+                        ends.add(x)
+            if t["t"] is None:
+                continue
+            reach = b.reach_from(t["t"], avoid=frozenset(ends))
+            for (blk2, c2, t2) in b.calls():
+                if blk2 not in reach or blk2 == blk or blk2 in ends:
+                    continue
+                if is_lock_call(c2) and c2.self_s == lock_ty and not c2.method.startswith("try_"):
+                    out.append((b, t, t2, c2, "directly"))
+                    continue
+                cb = prog.body(c2.target)
+                if cb is None:
+                    continue
+                inner = [cc for (_, cc, _) in prog.flat(cb.defp).calls() if is_lock_call(cc) and cc.self_s == lock_ty and not cc.method.startswith("try_")]
+                if inner:
+                    out.append((b, t, t2, c2, f"inside {last_seg(cb.defp)}"))
+    return out
